@@ -15,6 +15,11 @@ PROPS_PART = {
                    'Bodies extracted verbatim on every run.',
         verus=[dict(unit='zone_validation', which='all')],
         kani=[],
+        native=[dict(bin='bnd_validation', when='quick',
+                     bound='all zones of <= 7 records out of a 19-record universe (1-2 apex SOA; apex NS into the zone / below a delegation; name-server A, AAAA; two sibling delegations with NS into the child, the sibling, the parent, '
+                           'out of the zone; glue for both; MX with exchanger covered by a wildcard A / a plain in-zone name; 1-2 CNAMEs + other data; NS at a wildcard) x classes IN, CH, 65280 x glue policies Narrow, Wide',
+                     what='the SET of issues of the real Zone::validate on a real HashMapTreeZone == an executable reference checker written from the property text / RFC 1035 5.2 checks / GluePolicy documentation (on the flat-list zone model '
+                          'of bounded/src/zone_ref.rs); is_error false exactly for MissingMxAddress and NsAtWildcard. Not constrained: order/multiplicity of issues, occluded NS/MX, malformed NS/MX RDATA, wildcards owning NS that cover name servers')],
         cex={},
         unverified=['that Zone::iter_by_node of the real HashMapTreeZone enumerates every node exactly (C20; assumed contract of the NodeIter stand-in)',
                     'provided trait methods Zone::soa / Zone::ns / Zone::validate (one-line wrappers) and fmt::Display for ValidationIssue',
